@@ -27,7 +27,7 @@ class LexModel:
         if f is None:
             tb.issue("T_lex", tb.ev, "no Tokenizer::next")
             return
-        t = tb.fn_term(f, inline_pure=False)
+        t = tb.lexer_term(f)
         self.term = t
         m = None
         # (seq (let v0 NEXT) (match (var v0) arms...))   or  (match NEXT arms...)
